@@ -157,7 +157,7 @@ NO_SHRINK_KEYS = ('faults', 'hostkeys')
 
 
 def run(ctx):
-    ctx.hyp('strat_case', 6000 if ctx.quick else 120000, label=1)
+    ctx.hyp('strat_case', 15000 if ctx.quick else 250000, label=1)
     # dedicated rate-check grid
     grid = []
     base = {'kex': ['curve25519-sha256', 'diffie-hellman-group-exchange-sha256'], 'key': ['ssh-ed25519', 'rsa-sha2-512'], 'hostkeys': HOSTKEYS, 'moduli': [2048, 4096], 'gex_style': 'openssh'}
